@@ -330,6 +330,12 @@ pub fn gen_state(inst: &Inst, rng: &mut Rng) -> St {
             }
         }
     }
+    if STRING_MN.contains(&mn.as_str()) && mode == 64 && ins["as"].as_u64() == Some(32) {
+        // address-size override: only esi / edi / ecx count, the upper halves are arbitrary
+        for r in [6usize, 7, 1] {
+            st.gpr[r] |= rng.next() << 32;
+        }
+    }
     let stack = STACK_MN.contains(&mn.as_str());
     if stack {
         st.gpr[4] = WIN + 128 + if rng.chance(1, 4) { rng.below(8) } else { 0 };
